@@ -71,8 +71,8 @@ def main():
             json.dump(overlay, open(ov, "w"))
             line = f"{name} [{m['property']}] "
             if tests:
-                rc1, out1 = run(["go", "test", "-overlay", ov, "-vet=off", "-count=1", "./pkg/..."], cwd="/repo")
-                rc2, out2 = run(["go", "test", "-overlay", ov, "-vet=off", "-count=1", "./..."], cwd="/repo/client")
+                rc1, out1 = run(["go", "test", "-overlay", ov, "-vet=off", "-count=1", "-timeout", "4m", "./pkg/..."], cwd="/repo")
+                rc2, out2 = run(["go", "test", "-overlay", ov, "-vet=off", "-count=1", "-timeout", "4m", "./..."], cwd="/repo/client")
                 line += "repo-tests=" + ("PASS" if rc1 == 0 and rc2 == 0 else "FAIL") + " "
                 if rc1 or rc2:
                     sys.stdout.write((out1 + out2)[-1500:] + "\n")
